@@ -48,11 +48,12 @@ from __future__ import annotations
 import builtins
 import math
 import re
+import struct
 from typing import Any, Dict, List, Optional, Tuple
 
 import hippolyzer.lib.base.templates  # noqa: F401  (registers the subfield serializers)
 from hippolyzer.lib.base import serialization as se
-from hippolyzer.lib.base.datatypes import UUID
+from hippolyzer.lib.base.datatypes import Quaternion, TupleCoord, UUID, Vector3, Vector4
 from hippolyzer.lib.base.message.data_packer import TemplateDataPacker
 from hippolyzer.lib.base.message.message import Block, Message
 from hippolyzer.lib.base.message.message_formatting import HumanMessageSerializer as HMS
@@ -177,6 +178,28 @@ class TGen(msggen.Gen):
                     base.append((v, w))
                 self.alpha[key] = base
                 self.labels[key] = lab
+
+        # every vector-typed variable gets components that print in exponent notation (|x| < 1e-4, >= 1e16), f32-exact for the
+        # f32 types, including a near-half-turn quaternion whose *derived* W (5.9e-05) is the only such component
+        def f32(x):
+            return struct.unpack("<f", struct.pack("<f", x))[0]
+        ext = {
+            "LLVector3": [(f32(1e-05), f32(-2.5e-07), f32(1e16)), (1.0, f32(-3e38), f32(1.5e-45))],
+            "LLVector3d": [(5e-324, -1e-05, 1e16), (1e-300, 2.5, -1.7e308)],
+            "LLVector4": [(f32(1e-05), 1.0, f32(-1e16), f32(2e-40)), (0.5, 0.25, 0.125, f32(-7e-06))],
+        }
+        for key, vals in ext.items():
+            cls = Vector4 if key == "LLVector4" else Vector3
+            lab = self.labels.setdefault(key, {})
+            for v in vals:
+                lab[len(self.alpha[key])] = cls.__name__ + ":exponent"
+                self.alpha[key] = self.alpha[key] + [(cls(*v), v)]
+        quats = [("Quaternion:exponent-derived-W", (0.6000000238418579, 0.7999999523162842, 0.00021019922860432416)),
+                 ("Quaternion:exponent", (f32(1e-05), f32(-3e-08), 0.5))]
+        lab = self.labels.setdefault("LLQuaternion", {})
+        for l, v in quats:
+            lab[len(self.alpha["LLQuaternion"])] = l
+            self.alpha["LLQuaternion"] = self.alpha["LLQuaternion"] + [(Quaternion(*v), v)]
 
     def alphabet(self, key: str):
         if key.startswith("FIXED"):
@@ -332,7 +355,9 @@ def vclass(v: Any) -> str:
     if isinstance(v, int):
         return "int-negative" if v < 0 else ("int-high-bit" if v >= 2 ** 31 else "int")
     if isinstance(v, float):
-        return "float"
+        return "float:exponent" if "e" in repr(v) else "float"
+    if isinstance(v, TupleCoord):
+        return type(v).__name__ + (":exponent" if "e" in str(v) else "")
     if isinstance(v, str):
         return "str"
     if isinstance(v, bytes):
@@ -345,7 +370,14 @@ def _pack(name: str, bname: str, vname: str, v: Any) -> bytes:
     return bytes(TemplateDataPacker.pack(v, var.type))
 
 
-def locate(name: str, dm: Message, pm: Message, labeler) -> List[Tuple[str, str]]:
+def locate(name: str, dm: Message, pm: Message, labeler):
+    try:
+        return _locate(name, dm, pm, labeler)
+    except Exception:  # noqa  attribution must never turn a violation into a harness error
+        return []
+
+
+def _locate(name: str, dm: Message, pm: Message, labeler):
     """Where two messages differ: [(site, short detail)] (structure first, then first differing variables)."""
     out = []
     for bname, blist in dm.blocks.items():
@@ -383,25 +415,21 @@ def locate(name: str, dm: Message, pm: Message, labeler) -> List[Tuple[str, str]
     return variables[:6] + structural
 
 
-_BLAME_CACHE: Dict[tuple, tuple] = {}
-
-
 def blame_parse(name: str, dm: Message, text, replacements, labeler, err, beautify):
     """The parser is sequential: bisect for the first variable whose inclusion makes the prefix of the text fail.
-    Returns (site, fragment, coords)."""
-    ck = (name, beautify, repr(err)[:120])
-    if ck in _BLAME_CACHE:
-        return _BLAME_CACHE[ck]
-    spans = list(text.spans.items())
+    Returns (site, fragment, coords) or None; attribution is best effort and must never raise (a parse failure always has to
+    end up as a violation, if need be at the fallback site "<Msg>:parse-raises:<ExcType>")."""
+    try:
+        spans = list(text.spans.items())
 
-    def fails(k):  # does the text up to and including variable k fail to parse?
-        try:
-            HMS.from_human_string(str(text[:spans[k][1][1]]), replacements=replacements, safe=True)
-            return False
-        except Exception:  # noqa
-            return True
-    res = None
-    if spans and fails(len(spans) - 1):
+        def fails(k):  # does the text up to and including variable k fail to parse?
+            try:
+                HMS.from_human_string(str(text[:spans[k][1][1]]), replacements=replacements, safe=True)
+                return False
+            except Exception:  # noqa
+                return True
+        if not spans or not fails(len(spans) - 1):
+            return None
         lo, hi = 0, len(spans) - 1
         while lo < hi:
             mid = (lo + hi) // 2
@@ -411,9 +439,9 @@ def blame_parse(name: str, dm: Message, text, replacements, labeler, err, beauti
                 lo = mid + 1
         (mname, bname, i, vn), (a, b) = spans[lo]
         v0 = dm.blocks[bname][i][vn]
-        res = (f"{name}.{bname}.{vn}:{labeler(bname, i, vn, v0)}", str(text[a:b])[:300], (bname, i, vn))
-    _BLAME_CACHE[ck] = res
-    return res
+        return f"{name}.{bname}.{vn}:{labeler(bname, i, vn, v0)}", str(text[a:b])[:300], (bname, i, vn)
+    except Exception:  # noqa
+        return None
 
 
 def canonical_for_codec(name: str, blk: Block, vn: str) -> bool:
@@ -496,19 +524,29 @@ def roundtrip(part: Part, ser: UDPMessageSerializer, dm: Message, wire: bytes, w
             part.violation("safe-mode-eval", f"roundtrip:{name}", w, f"parsing the formatter's own output evaluated something ({touched} touches)")
         if err is not None:
             hit = blame_parse(name, dm, text, ptbl, labeler, err, beautify)
-            site, frag, coords = hit if hit else (f"{name}:parse", str(text)[:300], None)
-            part.violation(*classify(name, dm, coords, beautify, site), w, f"from_human_string raised {err!r} on {frag!r}")
+            site, frag, coords = hit if hit else (f"{name}:parse-raises:{type(err).__name__}", str(text)[:300], None)
+            try:
+                cl, st = classify(name, dm, coords, beautify, site)
+            except Exception:  # noqa
+                cl, st = "text-roundtrip", site + (":beautified" if beautify else "")
+            part.violation(cl, st, w, f"from_human_string raised {err!r} on {frag!r}")
             part.outcome(("parse-raises", type(err).__name__))
-            if coords:
+            try:
                 # do not let this variable hide the rest of the message: cut it out of the text and compare what remains
-                sa, sb = text.spans[(name,) + tuple(coords)]
-                pm2, err2, _ = guarded_parse(str(text[:sa]) + str(text[sb:]), ptbl, {"SENTINEL": sentinel}, sentinel)
-                if err2 is None:
-                    for site2, det2, c2 in locate(name, dm, pm2, labeler):
-                        if c2 == coords or site2 == f"{name}.{coords[0]}.{coords[2]}:missing":
-                            continue
-                        part.violation(*classify(name, dm, c2, beautify, site2), w, f"(with the unparseable {coords[2]} cut out) {det2}")
-                    part.count("masked_parse_failures_rechecked")
+                # (if the same failure recurs in other variables the cut text fails again; those share this root cause)
+                span = text.spans.get((name,) + tuple(coords)) if coords else None
+                if span:
+                    sa, sb = span
+                    pm2, err2, _ = guarded_parse(str(text[:sa]) + str(text[sb:]), ptbl, {"SENTINEL": sentinel}, sentinel)
+                    if err2 is None:
+                        for site2, det2, c2 in locate(name, dm, pm2, labeler):
+                            if c2 == coords or site2 == f"{name}.{coords[0]}.{coords[2]}:missing":
+                                continue
+                            part.violation(*classify(name, dm, c2, beautify, site2), w, f"(with the unparseable {coords[2]} cut out) {det2}")
+                        part.count("masked_parse_failures_rechecked")
+            except Exception as e2:  # noqa  attribution extras are best effort
+                part.count("attribution_errors")
+                part.outcome(("attribution-error", type(e2).__name__))
             continue
         if pm.direction != dm.direction:
             part.violation("text-header", "direction", w, f"{dm.direction} came back as {pm.direction}")
@@ -675,6 +713,9 @@ def check_case(part: Part, gen: TGen, case: dict, ser, de, combos=None, directio
 def rows_unit(part: Part, gen: TGen, name: str, ser, de):
     tmpl = gen.templates[name]
     nbase = msggen.Gen.n_rows(_BASE_GEN, tmpl)  # rows below this index are the C01 generator's own, the rest are torture rows
+    nvec = max([len(gen.alphabet(msggen.var_key(name, b.name, v))) for b in tmpl.blocks for v in b.vars
+                if v.type in ("LLVector3", "LLVector3d", "LLVector4", "LLQuaternion")] or [0])
+    nbase = max(nbase, nvec)  # the exponent-notation vector / quaternion rows are never thinned out in the quick tier
     sampled = False
     for c in gen.value_rows(name):
         m = re.match(r"row(\d+)(z?)$", c["tag"])
